@@ -38,6 +38,11 @@ def contact_pair(case) -> bool:
                 return True
             if v == "identical" and not whole_identical(ci, cj):
                 return True  # a shared curve between different composite operands
+            if v == "identical" and len(specs) >= 3:
+                # the same atom twice in an expression over other atoms too: an
+                # intermediate result carries pieces of that boundary and meets
+                # the other copy along them (S2 & (S0 ^ S1) with S2 = S0)
+                return True
     return False
 
 
@@ -81,7 +86,20 @@ def xor_curved_crossing(case) -> bool:
     return False
 
 
+def abs_tolerance_pair(case) -> bool:
+    """operands in general position that are closer to each other somewhere
+    than the library's absolute point tolerance (1e-6) without touching:
+    exact drawings in small units (D16)"""
+    specs = case.get("specs") or [case["a"], case["b"]]
+    for i in range(len(specs)):
+        for j in range(i + 1, len(specs)):
+            if oc.abs_near_contact(lib.spec_curves(specs[i]), lib.spec_curves(specs[j])):
+                return True
+    return False
+
+
 KNOWN_CLASSES = {"operands-in-contact": contact_pair, "xor-of-crossing-float-or-curved-operands": xor_curved_crossing}
+ABS_CLASS = {"operands-closer-than-the-absolute-point-tolerance": abs_tolerance_pair}
 
 
 def compare_region(ctx, sub, case, view, region, curves_all, us, curved, where):
@@ -135,6 +153,8 @@ def judge_pair(ctx, case):
         ctx.count("skipped-illconditioned")
         return
     if ctx.known_class(case, {"xor-of-crossing-float-or-curved-operands": xor_curved_crossing}):
+        return
+    if ctx.known_class(case, ABS_CLASS):
         return
     RA, RB = lib.spec_region(sa), lib.spec_region(sb)
     exact = not curved and all(rg.curve_is_exact(c) for c in ca + cb)
@@ -222,6 +242,8 @@ def judge_program(ctx, case):
                 if ctx.known_class(case, KNOWN_CLASSES):
                     return
     if ctx.known_class(case, {"xor-of-crossing-float-or-curved-operands": xor_curved_crossing}):
+        return
+    if ctx.known_class(case, ABS_CLASS):
         return
     if curved and oc.min_segment_length([c for cs in curves for c in cs]) < 1e-2:
         ctx.count("skipped-illconditioned")
